@@ -712,9 +712,10 @@ func (m *Manager) flushMemTable(mem *memtable.MemTable) error {
 			// Add this as a new entry (includes tombstones)
 			var valueCopy []byte
 			if currentValue != nil {
-				valueCopy = append([]byte(nil), currentValue...)
+				valueCopy = append([]byte{}, currentValue...)
 			}
-			// Note: valueCopy remains nil for tombstones
+			// Note: valueCopy remains nil for tombstones only; an empty value
+			// stays non-nil so that it is not written as a tombstone
 
 			entries = append(entries, keyEntry{
 				key:    append([]byte(nil), currentKey...),
@@ -729,7 +730,7 @@ func (m *Manager) flushMemTable(mem *memtable.MemTable) error {
 				// This is a newer version of the same key, replace the previous entry
 				var valueCopy []byte
 				if currentValue != nil {
-					valueCopy = append([]byte(nil), currentValue...)
+					valueCopy = append([]byte{}, currentValue...)
 				}
 				// Note: valueCopy remains nil for tombstones
 
